@@ -13,6 +13,8 @@ side condition can be checked syntactically; anything else is left alone (and th
   4. a local bound ONCE to a side-effect-free expression whose ingredients are not re-bound afterwards (`order = cancel.order`,
      `previous_time = self.time - 1`, `book = (self.buy_order_book if order.is_buy else self.sell_order_book)`) is substituted away;
   4b. a local bound to a comparison or a subscript and read only by the statement that immediately follows is moved into it;
+  4c. a local bound once to `d[k]` (side-effect-free d, k; neither d[k], d nor their ingredients stored to afterwards) is replaced by `d[k]`;
+  5b. `if c: x = A  else: x = B` becomes `x = A if c else B`;
   5. `(A if c else B)[i] op= e`  becomes  `if c: A[i] op= e  else: B[i] op= e`  (c side-effect-free)."""
 import ast
 import copy
@@ -282,7 +284,7 @@ def _simple(e):
     if isinstance(e, ast.Compare):
         return all(pure(x) or _simple(x) for x in [e.left] + list(e.comparators))
     if isinstance(e, ast.Subscript):
-        return pure(e.value) and (pure(e.slice) or isinstance(e.slice, ast.Constant))
+        return (pure(e.value) or (isinstance(e.value, ast.Subscript) and _simple(e.value))) and (pure(e.slice) or isinstance(e.slice, ast.Constant))
     return False
 
 
@@ -317,6 +319,79 @@ def next_use(body):
         out.append(s)
         i += 1
     return out
+
+
+def merge_branches(body):
+    """step 5b: `if c: x = A  else: x = B` (x a plain name, both branches exactly that one assignment) becomes `x = A if c else B`;
+    a preceding bare declaration `x: T` is dropped"""
+    out = []
+    for s in body:
+        if (isinstance(s, ast.If) and len(s.body) == 1 and len(s.orelse) == 1 and pure(s.test) or
+                (isinstance(s, ast.If) and len(s.body) == 1 and len(s.orelse) == 1 and isinstance(s.test, ast.Compare) and _simple(s.test))):
+            a, b = s.body[0], s.orelse[0]
+            if (isinstance(a, ast.Assign) and isinstance(b, ast.Assign) and len(a.targets) == 1 and len(b.targets) == 1
+                    and isinstance(a.targets[0], ast.Name) and isinstance(b.targets[0], ast.Name) and a.targets[0].id == b.targets[0].id):
+                x = a.targets[0].id
+                if out and isinstance(out[-1], ast.AnnAssign) and out[-1].value is None and isinstance(out[-1].target, ast.Name) and out[-1].target.id == x:
+                    out.pop()
+                out.append(ast.fix_missing_locations(ast.Assign(targets=[ast.Name(id=x, ctx=ast.Store())],
+                                                                value=ast.IfExp(test=copy.deepcopy(s.test), body=copy.deepcopy(a.value),
+                                                                                orelse=copy.deepcopy(b.value)), lineno=s.lineno)))
+                continue
+        if isinstance(s, (ast.If, ast.For)):
+            s = copy.deepcopy(s)
+            s.body = merge_branches(s.body)
+            s.orelse = merge_branches(s.orelse)
+        out.append(s)
+    return out
+
+
+def ref_aliases(body):
+    """step 4c: `x = d[k]` (d, k side-effect-free; x bound once; afterwards - in source order, and anywhere if inside a loop - no
+    statement stores to `d[k]`, to `d`, or to an ingredient of d or k): the later uses of x are replaced by `d[k]` - the same object,
+    so stores THROUGH x (`x[j] = v`, `x.append(v)`) act on it all the same"""
+    order = list(_ordered(body))
+    count = {}
+    for n in order:
+        for t in _targets(n):
+            if isinstance(t, ast.Name):
+                count[t.id] = count.get(t.id, 0) + 1
+        if isinstance(n, ast.For) and isinstance(n.target, ast.Name):
+            count[n.target.id] = count.get(n.target.id, 0) + 1
+    pos = {id(n): k for k, n in enumerate(order)}
+    in_loop = {id(q): n for n in order if isinstance(n, (ast.For, ast.While)) for q in _ordered(n.body)}
+
+    def go(stmts, m):
+        out = []
+        for s0 in stmts:
+            s = subst([s0], m)[0] if m else s0
+            if (isinstance(s, (ast.Assign, ast.AnnAssign)) and getattr(s, "value", None) is not None and len(_targets(s)) == 1
+                    and isinstance(_targets(s)[0], ast.Name) and isinstance(s.value, ast.Subscript) and _simple(s.value)):
+                x = _targets(s)[0].id
+                e = ast.unparse(s.value)
+                parts = {ast.unparse(n) for n in ast.walk(s.value) if isinstance(n, (ast.Name, ast.Attribute, ast.Subscript))}
+                if id(s0) in in_loop:
+                    loop = in_loop[id(s0)]
+                    scope = [q for q in _ordered(loop.body) if pos[id(q)] > pos[id(s0)]]
+                    # a later iteration re-evaluates the alias itself, so only stores AFTER it within the body matter, plus the loop variable
+                    later = {ast.unparse(t) for q in scope for t in _targets(q)}
+                else:
+                    later = {ast.unparse(t) for q in order[pos[id(s0)] + 1:] for t in _targets(q)}
+                later = {t.replace(x, e) if t.startswith(x + "[") or t == x else t for t in later}
+                if count.get(x) == 1 and not (parts & later):
+                    m = dict(m)
+                    m[x] = s.value
+                    continue
+            if isinstance(s0, ast.If):
+                s = copy.deepcopy(s)
+                s.body = go(s0.body, m)
+                s.orelse = go(s0.orelse, m)
+            elif isinstance(s0, ast.For):
+                s = copy.deepcopy(s)
+                s.body = go(s0.body, m)
+            out.append(s)
+        return out
+    return go(body, {})
 
 
 def split_cells(body):
